@@ -92,6 +92,70 @@ class MSemaphore:
         return False
 
 
+class MCondition:
+    """threading.Condition under the scheduler (the library as written uses none; a rewrite of the writer's backlog with a
+    deque and a condition variable must stay in the scheduler's hands): wait releases the lock, blocks until notified — or,
+    given a timeout, may return at any time — and takes the lock again"""
+
+    def __init__(self, S, lock=None):
+        self.S = S
+        self.lock = lock if lock is not None else MLock(S, True, ('X', None))
+        self.waiters = []
+
+    def acquire(self, *a, **k):
+        return self.lock.acquire(*a, **k)
+
+    def release(self):
+        return self.lock.release()
+
+    def __enter__(self):
+        self.lock.acquire()
+        return self
+
+    def __exit__(self, *a):
+        self.lock.release()
+        return False
+
+    def wait(self, timeout=None):
+        me = self.S.me()
+        if self.lock.owner is not me:
+            raise RuntimeError('cannot wait on un-acquired lock')
+        w = {'notified': False}
+        self.waiters.append(w)
+        depth = self.lock.depth
+        self.lock.depth = 0
+        self.lock.owner = None
+        if timeout is None:
+            self.S.yield_('clock', ('cond-wait',), cond=lambda: w['notified'])
+        else:
+            self.S.yield_('clock', ('cond-wait', timeout))
+        if w in self.waiters:
+            self.waiters.remove(w)
+        self.S.yield_('acquire', self.lock.tag, cond=lambda: self.lock._free_for(me))
+        self.lock.owner = me
+        self.lock.depth = depth
+        return w['notified']
+
+    def wait_for(self, predicate, timeout=None):
+        result = predicate()
+        while not result:
+            notified = self.wait(timeout)
+            result = predicate()
+            if timeout is not None and not notified:
+                break               # the timeout elapsed
+        return result
+
+    def notify(self, n=1):
+        for w in self.waiters[:n]:
+            w['notified'] = True
+        del self.waiters[:n]
+
+    def notify_all(self):
+        self.notify(len(self.waiters))
+
+    notifyAll = notify_all
+
+
 def make_threading_ns(S):
     import threading as _real
     ns = types.SimpleNamespace()
@@ -102,6 +166,7 @@ def make_threading_ns(S):
     ns.Semaphore = lambda value=1: MSemaphore(S, value)
     ns.BoundedSemaphore = lambda value=1: MSemaphore(S, value, bounded=True)
     ns.Event = lambda: MEvent(S)
+    ns.Condition = lambda lock=None: MCondition(S, lock)
 
     def Lock():
         # the item lock is created in _ItemTaskManager.__init__(self, <item name>, ...): tag it with the first
@@ -632,6 +697,8 @@ def install(S, chunks=(), end='block', fail_send=None, cpu=8, cpu_raises=False):
                 new = tns.BoundedSemaphore
             elif val is _real.Event:
                 new = lambda: MEvent(S)
+            elif val is _real.Condition:
+                new = lambda lock=None: MCondition(S, lock)
             if new is not None:
                 rebound.append((mod, name, val))
                 setattr(mod, name, new)
